@@ -413,7 +413,8 @@ def corpus(tier, r):
     imp = os.path.join(td, "imported.emb")
     if os.path.exists(imp):
         with open(imp) as f:
-            extra["testdata/imported_genfiles.emb"] = f.read()      # a genrule copy in the upstream build
+            # testdata/BUILD: genrule `sed -e 's/emboss::test/emboss::test::generated/g' imported.emb`
+            extra["testdata/imported_genfiles.emb"] = f.read().replace("emboss::test", "emboss::test::generated")
     names = sorted(f for f in os.listdir(td) if f.endswith(".emb"))
     if tier == "quick":
         start = common.seed() % 4
